@@ -314,6 +314,29 @@ Definition getattr (a : str) (n : item) : attr_result :=
   if is_real_attr a then AReal else AFound (find (QName a) n).
 
 (* ------------------------------------------------------------------ *)
+(* vocabulary of the specifications                                    *)
+
+(* n reaches x by one or more `contents` steps *)
+Inductive reach : item -> item -> Prop :=
+| reach_one n x : In x (contents n) -> reach n x
+| reach_step n c x : In c (contents n) -> reach c x -> reach n x.
+
+(* a query that is a plain identifier: non-empty, and none of { [ } ] \ *)
+Definition ident_query (q : str) : bool :=
+  match q with
+  | [] => false
+  | _ :: _ => forallb (fun c => negb (mem_N c [123; 91; 125; 93; 92]%N)) q
+  end.
+
+(* the strings TexEnv.__match__ compares a str query with before it falls
+   back to TexExpr.__match__ *)
+Definition env_openings (e : expr) : list str :=
+  [expr_name e; expr_begin_args e; expr_begin e; expr_end e].
+
+(* every string under which a node can be found *)
+Definition names_of (e : expr) : list str := estr e :: env_openings e.
+
+(* ------------------------------------------------------------------ *)
 (* independent structural enumerations used by the specifications      *)
 
 (* every non-blank content item below e -- bodies of environments, items,
